@@ -235,9 +235,13 @@ def check_renderer_order(run, f, cfg):
         run.anchor("C10.R4", "prepare_insert_statement", "not found", cfg)
         return
     n = 0
+    from ..stmt import head_tail_calls
+    idiom = head_tail_calls(fn["hir"])
     for c in walk(fn["hir"]):
         if c.get("k") == "mcall":
             n += 1
+            if id(c) in idiom:
+                continue
             if c["name"] in deny:
                 run.ob("C10.R4", "reorder:%s" % c["name"], False, "prepare_insert_statement calls .%s(): rows/cells would not be rendered in order/completely" % c["name"],
                        sp=c.get("sp"), cfg=cfg)
